@@ -19,6 +19,15 @@ BASIC = [
 ]
 
 
+# creator killed between close and its p_semaphore_new: a follower re-creates the lock (sem_created), its plain free
+# unlinks the lock while the segment and other handles live on, the next opener makes a second lock (finding)
+LOCK_LOST = [
+    ["0 %s %d new-shm 0 m0 %d" % (v, kk, P), "1 new-shm 1 m0 0", "2 new-shm 2 m0 0", "obs", "1 free 1", "obs",
+     "0 new-shm 3 m0 0", "2 lock 2", "0 lock 3", "obs"]
+    for (v, kk) in (("crash", 4), ("crash", 3), ("crashA", 4))
+]
+
+
 def crash_scenarios():
     def rec(size):
         return ["1 new-shm 8 m0 0", "obs", "1 own 8", "1 free 8", "obs", "1 new-shm 9 m0 %d" % size, "1 rd 9 0", "obs",
@@ -55,7 +64,7 @@ def race_cases(rng, thorough):
     a_first = [s for s in scheds if s[0] == "a"]
     mirror = ["".join("b" if c == "a" else "a" for c in s) for s in rng.sample(a_first, 40 if thorough else 15)]
     if not thorough:      # quick: the two window witnesses + a sample; thorough: all 330 interleavings
-        a_first = ["abbbaaaabbbb", "aaaabbbbbbab"] + rng.sample(a_first, 150)
+        a_first = ["abbbaaaabbbb", "aaaabbbbbbab"] + rng.sample(a_first, 100)
     for s in a_first + mirror:
         out.append(["par %s 0 new-shm 0 m0 %d ; 1 new-shm 1 m0 %d" % (s, P, P), "obs", "0 wr 0 1 33", "1 rd 1 1", "0 lock 0", "1 lock 1", "obs"])
     for s in rng.sample(a_first, 120 if thorough else 40):
@@ -93,10 +102,10 @@ def run(chk):
     chk.cov["eintr_cases"] = len(eintr)
     races = [ipc.prefilter(c) for c in race_cases(rng, thorough)]
     chk.cov["race_schedules"] = len(races)
-    nr = 1200 if thorough else 90
+    nr = 800 if thorough else 70
     rnd = [ipc.prefilter(ipc.gen_history(rng, chk, rng.choice([8, 25, 60]), sem_w=0.25, shm_w=1.0)) for _ in range(nr)]
 
-    R.run(corpus + BASIC, batch=1)
+    R.run(corpus + BASIC + [ipc.prefilter(c) for c in LOCK_LOST], batch=1)
     R.run(crash + eintr, batch=20)
     R.run(races, batch=30)
     R.run(rnd, batch=10)
@@ -109,7 +118,7 @@ def run(chk):
     chk.cov["rule"] = ("op files over 3 worker processes x 4 names x 16 handles: p_shm_new with sizes 1..3 pages (re-open smaller / larger / zero / equal), byte stores and loads at offsets biased to 0, size-1 and page borders, "
                        "lock/unlock, take_ownership, free, SIGKILL; after every op: reported size, first bytes and checksum through every live handle, /proc/<pid>/maps entries of the segment per process, "
                        "/dev/shm presence and size, lock value (drained by an observer%s), system calls made — compared with model and spec; crash: SIGKILL before/after every system call of new/free/lock/unlock (8 scenarios) "
-                       "then new/take_ownership/free/new; EINTR n<=6 at every k; races: interleavings of two first-time p_shm_new replayed with gated system calls (quick: both windows + 150 sampled, thorough: all 330 + mirrored); distinct by op-file hash, non-trivial = more than one op"
+                       "then new/take_ownership/free/new; EINTR n<=6 at every k; races: interleavings of two first-time p_shm_new replayed with gated system calls (quick: both windows + 100 sampled, thorough: all 330 + mirrored); distinct by op-file hash, non-trivial = more than one op"
                        % (", cross-checked with sem_getvalue" if thorough else ""))
     chk.assumptions += ipc.ASSUMPTIONS
     return chk.finish()
